@@ -113,7 +113,9 @@ impl TreeGen<'_, '_, '_> {
                     if !self.take() {
                         break;
                     }
-                    let c = *self.ch.pick(CONTAINER_WIDGETS);
+                    // pages are containers or plain widgets, item views among them (they carry
+                    // header attributes next to the attached tab attributes)
+                    let c = if self.ch.chance(1, 3) { *self.ch.pick(&["QTableView", "QTreeView", "QTableView", "QTreeView", "QTextEdit", "QListWidget", "QLabel"]) } else { *self.ch.pick(CONTAINER_WIDGETS) };
                     let mut page = self.widget(c, depth + 1);
                     if self.ch.chance(4, 5) {
                         page.binds.push(Bind::new("QTabWidget.title", format!("\"Tab {i}\"")));
